@@ -59,7 +59,10 @@ it was filed under `/verif/seeded/<id>/` (`patch.diff`, `demo.py`, `notes.md`
 with the trigger, `meta.json`). One first-round change
 (C13-A, pickling through `values`) stopped being a breaking change when the
 underlying defect — `values` of a non-contiguous array — was found by the C13
-check itself and repaired (§10); it was retired. Three were re-created by hand
+check itself and repaired (§10); it was retired. So was C12-D (a float64 zero
+fallback in `clean.py`) once the default result dtype was repaired to be the
+promotion of the coefficients as given (§10): its own demo passes with the
+change applied. Five were re-created by hand
 on a later HEAD after repairs touched the same lines (`meta.json: rebased`).
 
 Checks are run against a seeded change in a private worktree
